@@ -164,7 +164,8 @@ class MayRaise:
         self.hardened = hardened
         self.recursion_guard = recursion_guard
         self.discharge = discharge
-        self.summ: Dict[str, Dict[ExKey, Origin]] = {}
+        # function -> {(exception key, origin function, origin line): Origin}; one entry per escaping raise *site*
+        self.summ: Dict[str, Dict[Any, Origin]] = {}
         self.unclassified: List[str] = []
         self.n_explicit = 0
         self.n_asserts = 0
@@ -233,7 +234,8 @@ class MayRaise:
                     out.add((a, b))
         return out
 
-    def escaping(self, f: FuncInfo) -> Dict[ExKey, Origin]:
+    def escaping(self, f: FuncInfo) -> Dict[Any, Origin]:
+        """{(exception key, origin function, origin line): Origin} escaping f."""
         return self.summ.get(f.full, {})
 
     # ---------------------------------------------------------- functions
@@ -281,7 +283,7 @@ class MayRaise:
                 hk = self.h.keys_of(m, h.type)
                 if hk is None:
                     raise AnalysisError(f'{f.where()}:{h.lineno}: cannot resolve handler type `{norm(h.type)}`')  # type: ignore[arg-type]
-                caught = {k: o for k, o in remaining.items() if self._catches(hk, k)}
+                caught = {k: o for k, o in remaining.items() if self._catches(hk, k[0])}
                 for k in caught:
                     del remaining[k]
                 self._merge(out, self._stmts(h.body, caught))
@@ -302,7 +304,7 @@ class MayRaise:
                 else:
                     self._merge(out, self._expr(ce))
             body = self._stmts(st.body, reraise)
-            self._merge(out, {k: o for k, o in body.items() if not self._catches(suppress, k)})
+            self._merge(out, {k: o for k, o in body.items() if not self._catches(suppress, k[0])})
             return out
         if isinstance(st, ast.If):
             self._merge(out, self._expr(st.test))
@@ -337,14 +339,14 @@ class MayRaise:
                 self._counted.add(id(st))
                 self.n_explicit += 1
             for k in keys:
-                out.setdefault(k, Origin(f.where(), st.lineno, norm(st)[:100]))
+                out.setdefault((k, f.where(), st.lineno), Origin(f.where(), st.lineno, norm(st)[:100]))
             return out
         if isinstance(st, ast.Assert):
             if id(st) not in self._counted:
                 self._counted.add(id(st))
                 self.n_asserts += 1
             self._merge(out, self._expr(st.test))
-            out.setdefault('builtins.AssertionError', Origin(f.where(), st.lineno, norm(st)[:100]))
+            out.setdefault(('builtins.AssertionError', f.where(), st.lineno), Origin(f.where(), st.lineno, norm(st)[:100]))
             return out
         if isinstance(st, (ast.FunctionDef, ast.AsyncFunctionDef, ast.ClassDef)):
             return out
@@ -434,7 +436,7 @@ class MayRaise:
                 self._counted.add(('d', id(node)))  # type: ignore[arg-type]
                 self.n_discharged += 1
             return
-        out.setdefault(key, Origin(f.where(), getattr(node, 'lineno', 0), norm(node)[:100]))
+        out.setdefault((key, f.where(), getattr(node, 'lineno', 0)), Origin(f.where(), getattr(node, 'lineno', 0), norm(node)[:100]))
 
     def _type_names(self, e: ast.AST) -> List[str]:
         td = self.ty.type_of(self._f.module.name, e)
